@@ -244,3 +244,102 @@ Qed.
 Theorem linear_adjoint n d K X th g dth :
   inner n K g (linear_jvp d K X th dth) = - inner_lin d K (linear_step_grads Rops n d K th X g) dth.
 Proof. apply linear_adjoint_any. Qed.
+
+(* RIM / KernelRIM: the direction is the linear one plus the penalty term on W *)
+Lemma rim_grads_split d K reg (th g dth : @LinP R) :
+  inner_lin d K (rim_update_grads Rops reg th g) dth
+  = inner_lin d K g dth + inner d K (fun j k => 2 * reg * lW th j k) (lW dth).
+Proof.
+  unfold inner_lin, rim_update_grads. cbn [lW lb].
+  rewrite (inner_ext d K _ (fun j k => lW g j k + 2 * reg * lW th j k) (lW dth) (lW dth)).
+  2:{ intros j k _ _. cbn [nadd nmul Rops]. rewrite n2_R. ring. } 2:{ reflexivity. }
+  rewrite inner_plus_l. ring.
+Qed.
+Lemma kernel_rim_grads_split n nt K reg (Kt : mat) (th : @LinP R) (X Y g : mat) dth :
+  inner_lin nt K (kernel_rim_compute_grads Rops n nt K reg Kt th X Y g) dth
+  = inner_lin nt K (linear_compute_grads Rops n K X Y g) dth
+    + inner nt K (fun j k => 2 * reg * rsum nt (fun l => Kt j l * lW th l k)) (lW dth).
+Proof.
+  unfold inner_lin, kernel_rim_compute_grads. cbn [lW lb].
+  rewrite (inner_ext nt K _ (fun j k => lW (linear_compute_grads Rops n K X Y g) j k + 2 * reg * rsum nt (fun l => Kt j l * lW th l k))
+             (lW dth) (lW dth)).
+  2:{ intros j k _ _. cbn [nadd nmul Rops]. rewrite n2_R, matmul_R. reflexivity. } 2:{ reflexivity. }
+  rewrite inner_plus_l. ring.
+Qed.
+
+(* ------------------------------------------------------------------ MLP *)
+Definition inner_mlp (d h K : nat) (g dth : @MlpP R) : R :=
+  inner d h (mW1 g) (mW1 dth) + inner h K (mW2 g) (mW2 dth) + inner_vec h (mb1 g) (mb1 dth) + inner_vec K (mb2 g) (mb2 dth).
+(* pre-activations X W1 + b1 *)
+Definition preact (d : nat) (X : mat) (th : @MlpP R) : mat := affine Rops d X (mW1 th) (mb1 th).
+Definition relu_off_kink (n h : nat) (A : mat) : Prop := forall i j, (i < n)%nat -> (j < h)%nat -> A i j <> 0.
+(* derivative of the ReLU off the kink: 1 on positive pre-activations, 0 on negative ones *)
+Definition dmask (A : mat) : mat := fun i j => if Rlt_dec 0 (A i j) then 1 else 0.
+Definition mlp_dhidden (d : nat) (X : mat) (th dth : @MlpP R) : mat :=
+  fun i j => dmask (preact d X th) i j * (rsum d (fun j' => X i j' * mW1 dth j' j) + mb1 dth j).
+(* differential of the logits H W2 + b2 *)
+Definition mlp_dlogits (d h : nat) (X : mat) (th dth : @MlpP R) : mat :=
+  fun i k => rsum h (fun j => mlp_dhidden d X th dth i j * mW2 th j k)
+           + (rsum h (fun j => mlp_hidden Rops d h (mW1 th) (mb1 th) X i j * mW2 dth j k) + mb2 dth k).
+Definition mlp_jvp (n d h K : nat) (X : mat) (th dth : @MlpP R) : mat :=
+  smjvp K (mlp_infer_p Rops d h K th X) (mlp_dlogits d h X th dth).
+
+(* the code's mask `H > 0` on the retained hidden layer is the derivative of the ReLU at the pre-activation *)
+Lemma relu_R x : relu Rops x = if Rlt_dec x 0 then 0 else x.
+Proof. unfold relu, nmax. cbn [nltb n0 Rops]. unfold Rltb. destruct (Rlt_dec x 0); reflexivity. Qed.
+Lemma relu_mask_is_dmask d h (X : mat) (th : @MlpP R) i j :
+  relu_mask Rops (mlp_hidden Rops d h (mW1 th) (mb1 th) X) i j = dmask (preact d X th) i j.
+Proof.
+  unfold relu_mask, dmask, mlp_hidden, preact. rewrite relu_R. cbn [nltb n0 n1 Rops]. unfold Rltb.
+  set (a := affine Rops d X (mW1 th) (mb1 th) i j).
+  destruct (Rlt_dec a 0); destruct (Rlt_dec 0 a); destruct (Rlt_dec 0 0); try reflexivity; lra.
+Qed.
+
+(* back-propagation through the hidden layer, for any tau, any output weights W2 and any mask *)
+Lemma hidden_adjoint n d h K (tau X W2 Mk dW1 : mat) (db1 : nat -> R) :
+  inner n K tau (fun i k => rsum h (fun j => (Mk i j * (rsum d (fun j' => X i j' * dW1 j' j) + db1 j)) * W2 j k))
+  = let bp := fun i j => rsum K (fun k => tau i k * W2 j k) * Mk i j in
+    inner d h (fun j' j => rsum n (fun i => X i j' * bp i j)) dW1 + inner_vec h (fun j => rsum n (fun i => bp i j)) db1.
+Proof.
+  cbv zeta.
+  rewrite (matmul_adjoint_r n h K tau (fun i j => Mk i j * (rsum d (fun j' => X i j' * dW1 j' j) + db1 j)) W2).
+  transitivity (inner n h (fun i j => rsum K (fun k => tau i k * W2 j k) * Mk i j) (fun i j => rsum d (fun j' => X i j' * dW1 j' j) + db1 j)).
+  { unfold inner. apply rsum_ext. intros i Hi. apply rsum_ext. intros j Hj. ring. }
+  exact (affine_adjoint n d h (fun i j => rsum K (fun k => tau i k * W2 j k) * Mk i j) X dW1 db1).
+Qed.
+
+Lemma mlp_adjoint_any n d h K (X Y g : mat) (th dth : @MlpP R) :
+  inner n K g (smjvp K Y (mlp_dlogits d h X th dth))
+  = - inner_mlp d h K (mlp_compute_grads Rops n K (mW2 th) (mlp_hidden Rops d h (mW1 th) (mb1 th) X) X Y g) dth.
+Proof.
+  rewrite softmax_adjoint. set (tau := tau_hat Rops K Y g). set (H := mlp_hidden Rops d h (mW1 th) (mb1 th) X).
+  unfold mlp_dlogits. fold H.
+  rewrite (inner_plus_r n K tau (fun i k => rsum h (fun j => mlp_dhidden d X th dth i j * mW2 th j k))
+             (fun i k => rsum h (fun j => H i j * mW2 dth j k) + mb2 dth k)).
+  rewrite (affine_adjoint n h K tau H (mW2 dth) (mb2 dth)).
+  unfold mlp_dhidden.
+  rewrite (hidden_adjoint n d h K tau X (mW2 th) (dmask (preact d X th)) (mW1 dth) (mb1 dth)). cbv zeta.
+  unfold inner_mlp, mlp_compute_grads. cbn [mW1 mW2 mb1 mb2]. fold tau.
+  rewrite (inner_ext d h (mneg Rops (tmatmul Rops n X (mlp_backprop Rops K tau (mW2 th) H)))
+             (fun j' j => - rsum n (fun i => X i j' * (rsum K (fun k => tau i k * mW2 th j k) * dmask (preact d X th) i j)))
+             (mW1 dth) (mW1 dth)).
+  2:{ intros j' j _ _. rewrite mneg_R, tmatmul_R. f_equal. apply rsum_ext. intros i Hi. unfold mlp_backprop.
+      unfold H. rewrite relu_mask_is_dmask. reflexivity. } 2:{ reflexivity. }
+  rewrite inner_neg_l.
+  rewrite (inner_ext h K (mneg Rops (tmatmul Rops n H tau)) (fun j k => - tmatmul Rops n H tau j k) (mW2 dth) (mW2 dth))
+    by (intros; try apply mneg_R; reflexivity).
+  rewrite inner_neg_l.
+  unfold inner_vec.
+  rewrite (rsum_ext h (fun k => vneg Rops (colsum Rops n (mlp_backprop Rops K tau (mW2 th) H)) k * mb1 dth k)
+             (fun j => - (rsum n (fun i => rsum K (fun k => tau i k * mW2 th j k) * dmask (preact d X th) i j) * mb1 dth j))).
+  2:{ intros j Hj. rewrite vneg_R, colsum_R.
+      rewrite (rsum_ext n (fun i => mlp_backprop Rops K tau (mW2 th) H i j) (fun i => rsum K (fun k => tau i k * mW2 th j k) * dmask (preact d X th) i j)).
+      2:{ intros i Hi. unfold mlp_backprop, H. rewrite relu_mask_is_dmask. reflexivity. } ring. }
+  rewrite (rsum_ext K (fun k => vneg Rops (colsum Rops n tau) k * mb2 dth k) (fun k => - (colsum Rops n tau k * mb2 dth k)))
+    by (intros; rewrite vneg_R; ring).
+  rewrite !rsum_opp. ring.
+Qed.
+(* DESIGN Appendix A, verbatim shape (the algebra does not even need the off-kink hypothesis) *)
+Theorem mlp_adjoint n d h K X th g dth : relu_off_kink n h (preact d X th) ->
+  inner n K g (mlp_jvp n d h K X th dth) = - inner_mlp d h K (mlp_step_grads Rops n d h K th X g) dth.
+Proof. intros _. apply mlp_adjoint_any. Qed.
